@@ -65,6 +65,7 @@ class Flow:
         self._collect_defs()
         self._reach()
         self._term_cache = {}
+        self._override = None  # path environment {name: term} used by tables.paths
 
     # ------------------------------------------------------------------ definitions
     def _collect_defs(self):
@@ -180,6 +181,10 @@ class Flow:
         return (self.fi.qual, getattr(e, "lineno", 0), getattr(e, "col_offset", 0))
 
     def term(self, expr, node, depth=0):
+        if self._override is not None:
+            if depth > _MAX_DEPTH:
+                return ("unk", "depth:" + src_of(expr, 40))
+            return self._term(expr, node, depth)
         key = (id(expr), node.id)
         if key in self._term_cache:
             return self._term_cache[key]
@@ -188,6 +193,15 @@ class Flow:
         t = self._term(expr, node, depth)
         self._term_cache[key] = t
         return t
+
+    def term_env(self, expr, node, env):
+        """Term of ``expr`` at ``node`` where the locals in ``env`` have the given (path-specific) terms."""
+        old = self._override
+        self._override = env
+        try:
+            return self.term(expr, node)
+        finally:
+            self._override = old
 
     def name_term(self, name, node, depth=0):
         """Term of local/closure/global ``name`` as seen at the *entry* of CFG node ``node``."""
@@ -286,9 +300,21 @@ class Flow:
         if isinstance(e, ast.Constant):
             return ("const", repr(e.value))
         if isinstance(e, ast.Name):
+            if self._override is not None and e.id in self._override:
+                return self._override[e.id]
             return self.name_term(e.id, node, d1)
         if isinstance(e, ast.Attribute):
-            return ("attr", self.term(e.value, node, d1), e.attr)
+            base = self.term(e.value, node, d1)
+            if base[0] == "module":
+                # canonicalise references into the package: icontract._checkers.f -> ('func', '_checkers.f')
+                if base[1] == PKG and e.attr in self.model.modules:
+                    return ("module", PKG + "." + e.attr)
+                if base[1].startswith(PKG + ".") and base[1].split(".")[1] in self.model.modules:
+                    m2 = self.model.modules[base[1].split(".")[1]]
+                    g = global_term(self.model, m2, e.attr)
+                    if g[0] in ("func", "class", "global"):
+                        return g
+            return ("attr", base, e.attr)
         if isinstance(e, ast.Subscript):
             return ("idx", self.term(e.value, node, d1), self.term(e.slice, node, d1))
         if isinstance(e, ast.Await):
@@ -309,6 +335,9 @@ class Flow:
                     lit = None
                 if isinstance(lit, str):
                     return ("attr", args[0], lit)
+            # typing.cast(T, x) is the identity on x
+            if callee in (("module", "typing.cast"), ("attr", ("module", "typing"), "cast")) and len(args) == 2 and not kwargs:
+                return args[1]
             args, kwargs = normalise_args(self.model, callee, args, kwargs)
             return ("call", callee, args, kwargs, self.site(e))
         if isinstance(e, (ast.Tuple, ast.List, ast.Set)):
@@ -410,7 +439,8 @@ def strip_sites(t):
 def subterms(t):
     if not isinstance(t, tuple):
         return
-    yield t
+    if t and isinstance(t[0], str):
+        yield t
     for x in t:
         if isinstance(x, tuple):
             for s in subterms(x):
